@@ -38,6 +38,8 @@ type Prog struct {
 	merged       map[string]*ssa.Function /* reference name → the function its body was written into */
 	renamed      map[string]*ssa.Function /* reference name → the function which took its place */
 	Lowered      int
+	stable       map[*ssa.Global]bool
+	written      map[*ssa.Global]int
 	Materialised int             /* loads of once-assigned package-level function tables replaced by the literal */
 	Forwarded    int             /* reference functions found to be forwarders to a new function which took over their body */
 	ifaceNames   map[string]bool /* method names of the module's own interface types */
@@ -483,6 +485,9 @@ func (p *Prog) flatten() {
 			/* "a && b" computed as a value only to be branched on (the
 			cases of a tagless switch) becomes the two branches. */
 			ssa.ThreadBoolPhis(f)
+			/* One question asked twice (errors.Is(err, ErrX) in a helper
+			folded in and again in the caller) has one answer. */
+			ssa.CommonSubexpressions(f, p.stableGlobal, pureCall)
 		}
 	}
 	/* Which helpers are still referenced from non-helper code? */
@@ -823,6 +828,80 @@ func (p *Prog) materialiseTables(f *ssa.Function) {
 			}
 		}
 	}
+}
+
+// stableGlobal: a package-level variable which nothing in the module writes
+// (outside its own package's initialiser, once) or takes the address of:
+// every load of it gives the same value.
+func (p *Prog) stableGlobal(g *ssa.Global) bool {
+	if nil == p.stable {
+		p.stable = map[*ssa.Global]bool{}
+		written := map[*ssa.Global]int{}
+		var visit func(f *ssa.Function)
+		visit = func(f *ssa.Function) {
+			isInit := "init" == f.Name() || strings.HasPrefix(f.Name(), "init#")
+			for _, b := range f.Blocks {
+				for _, i := range b.Instrs {
+					var ops []*ssa.Value
+					for _, o := range i.Operands(ops) {
+						gl, ok := (*o).(*ssa.Global)
+						if !ok {
+							continue
+						}
+						switch x := i.(type) {
+						case *ssa.UnOp:
+							if token.MUL == x.Op {
+								continue
+							}
+							written[gl] += 2
+						case *ssa.Store:
+							if x.Addr == ssa.Value(gl) && isInit && f.Pkg == gl.Pkg {
+								written[gl]++
+							} else {
+								written[gl] += 2
+							}
+						case *ssa.DebugRef:
+						default:
+							written[gl] += 2 /* address used: may be written through */
+						}
+					}
+				}
+			}
+			for _, a := range f.AnonFuncs {
+				visit(a)
+			}
+		}
+		for _, pk := range p.SSA.AllPackages() {
+			if !strings.HasPrefix(pk.Pkg.Path(), ModPath) {
+				continue
+			}
+			for _, m := range pk.Members {
+				if f, ok := m.(*ssa.Function); ok {
+					visit(f)
+				}
+			}
+			if ini := pk.Func("init"); nil != ini {
+				visit(ini)
+			}
+		}
+		p.written = written
+	}
+	if v, ok := p.stable[g]; ok {
+		return v
+	}
+	v := p.written[g] <= 1
+	p.stable[g] = v
+	return v
+}
+
+// pureCall: a call whose results depend on the values of its arguments only.
+func pureCall(c *ssa.Call) bool {
+	switch calleeName(c.Common()) {
+	case "errors.Is", "strings.HasPrefix", "strings.HasSuffix", "strings.Contains", "strings.TrimSpace", "strings.TrimPrefix", "strings.TrimSuffix",
+		"strings.ToLower", "strings.ToUpper", "strings.EqualFold", "path/filepath.Base", "path/filepath.Ext", "path/filepath.Dir", "path/filepath.Clean", "path.Base":
+		return true
+	}
+	return false
 }
 
 // promoteParams applies argument promotion (ssa.PromoteStructParams) to the
